@@ -492,7 +492,7 @@ def run_case(case):
         obs1 = {p: c for p, c in list(ch1.items()) + list(ch2.items()) if c not in HIDDEN}
         if obs1:
             cls = sorted(set(obs1.values()))
-            fail('observable-changed', '%s:%s' % (k, '+'.join(cls)),
+            fail('observable-changed', k,
                  'query %s changed observable locations %s' % (k, sorted(obs1)[:4]), i, sorted(obs1)[:12])
         if not rep:
             fail('not-repeatable', k, 'query %s returned a different result when repeated' % k, i)
@@ -503,7 +503,7 @@ def run_case(case):
     d = W.diff(a_snap, b_snap)
     if d:
         twin_equal = False
-        fail('observable-changed', 'history:%s' % '+'.join(sorted(set(d.values()))),
+        fail('observable-changed', 'history',
              'after the history the queried document differs from its never-queried twin at %s' % sorted(d)[:4], len(ops),
              sorted(d)[:12])
     for key in distinct:
@@ -522,7 +522,9 @@ def run_case(case):
             'nloc': len(a_snap)}
 
 
-def shrink(case, clause, site):
+def shrink(case, clause, site, step=None):
+    """a short history on which the same clause still fails: the failing step alone, the failing
+    step after one earlier step, the prefix up to it, then greedy removal on short prefixes"""
     ops = list(case['ops'])
 
     def bad(o):
@@ -531,9 +533,17 @@ def shrink(case, clause, site):
         except Exception:  # noqa
             return False
         return any(f['clause'] == clause and f['site'] == site for f in r['fails'])
-    if not bad(ops):
+    if step is not None and step < len(ops):
+        if bad([ops[step]]):
+            return dict(case, ops=[ops[step]])
+        for j in range(step - 1, -1, -1):
+            if bad([ops[j], ops[step]]):
+                return dict(case, ops=[ops[j], ops[step]])
+        if bad(ops[:step + 1]):
+            ops = ops[:step + 1]
+    elif not bad(ops):
         return case
-    changed = True
+    changed = len(ops) <= 14
     while changed and len(ops) > 1:
         changed = False
         for i in range(len(ops)):
@@ -548,9 +558,17 @@ def main():
     payload = json.load(sys.stdin)
     W.freeze_clock()
     if 'shrink' in payload:
-        json.dump(shrink(payload['shrink'], payload['clause'], payload['site']), sys.stdout)
+        json.dump(shrink(payload['shrink'], payload['clause'], payload['site'], payload.get('step')), sys.stdout)
         return
-    json.dump([run_case(c) for c in payload['cases']], sys.stdout)
+    out = []
+    for c in payload['cases']:
+        try:
+            out.append(run_case(c))
+        except Exception as e:  # noqa
+            out.append({'built': True, 'steps': [], 'twin_equal': False, 'crashed': True,
+                        'fails': [{'clause': 'crash-or-hang', 'site': 'exception:' + type(e).__name__, 'step': 0,
+                                   'what': 'unexpected %s while running the history: %s' % (type(e).__name__, W.scrub(str(e))[:200])}]})
+    json.dump(out, sys.stdout)
 
 
 if __name__ == '__main__':
